@@ -15,7 +15,7 @@ LEVEL = "exploration"
 RULE = (
     "Hypothesis draws a function kind (module-level function in a real file that is rewritten and re-imported, nested "
     "function, lambda, function of a script run as __main__, function whose file does not exist (source only in linecache), exec()-defined function without any retrievable source whose versions differ only by a constant) "
-    "(plus a 'swap' kind: one definition whose code object is replaced by that of donor functions of the same file and restored) and a history of 1-3 sessions, each a fresh interpreter sharing one cache directory, made of steps: define version k "
+    "(plus an 'indent' kind whose versions differ only in the indentation of two lines, and a 'swap' kind: one definition whose code object is replaced by that of donor functions of the same file and restored) and a history of 1-3 sessions, each a fresh interpreter sharing one cache directory, made of steps: define version k "
     "(same name and module, optionally with the first line shifted), call live version j with argument a, swap the code "
     "object of a live version or restore its original one, drop every reference to a live version (function, wrapper, "
     "module) and garbage-collect.  Version k returns (k, a).  Oracle: every call of a live version whose code is version v "
@@ -43,7 +43,7 @@ def strategy():
     )
     session = st.lists(step, min_size=1, max_size=10).map(lambda s: [["def", 1, 0]] + s if s[0][0] != "def" else s)
     redefine = st.fixed_dictionaries({
-        "kind": st.sampled_from(["module", "module", "nested", "lambda", "main", "nofile", "sourceless"]),
+        "kind": st.sampled_from(["module", "module", "nested", "lambda", "main", "nofile", "sourceless", "indent"]),
         "sessions": st.lists(session, min_size=1, max_size=3),
     })
     # code-object swapping: one definition f plus donor functions in the same file (all sources stay retrievable)
